@@ -123,6 +123,19 @@ pub fn gen_c02(rng: &mut Rng, n: usize, out: &mut Vec<String>) {
         if i % 100 == 7 {
             crate::ops_feat::gen_predefined_name_cases(rng, out);
         }
+        if i % 8 == 5 {
+            // a valid program with one violation of one SPL rule injected (the diagnostics of every rule, with their
+            // ranges, are built, collected and published), opened and then edited
+            let prog = gen_prog::gen(rng, 3, 3, 2);
+            let class = *rng.pick(crate::ops_sem::FAULT_CLASSES);
+            if let Some((toks, _, _, _)) = crate::ops_sem::inject(rng, &prog, class) {
+                let lo = Layout { comment_pct: 5, comment_gaps: Some(gen_prog::LEADING_GAPS), compact: rng.chance(1, 2) };
+                let t = gen_prog::layout(rng, &toks, &lo).0;
+                out.push(format!("NEW {}", hex_str(&t)));
+                let edits = gen_edits(rng, &t, 1);
+                out.push(format!("INC {}{}", hex_str(&t), edits));
+            }
+        }
         if i % 4 == 1 {
             // the document layer: batched content changes (ranged and full-text, each relative to its
             // predecessor) through to_text_changes + replace_range; a panic here kills the broker task
